@@ -11,6 +11,7 @@ package main
 // interface and reflect.Value is an (opaque) struct.
 
 import (
+	"sync"
 	"fmt"
 	"go/token"
 	"go/types"
@@ -60,7 +61,69 @@ func rV2T(v value) rtype {
 
 // Given a reflect.Value, returns the underlying interpreter value.
 func rV2V(v value) value {
-	return v.(structure)[1]
+	x := v.(structure)[1]
+	if a, ok := x.(rAddr); ok {
+		return *a.p
+	}
+	return x
+}
+
+// rAddr marks an addressable reflect.Value: the value lives at *p.
+type rAddr struct{ p *value }
+
+func makeReflectValueAddr(t types.Type, p *value) value {
+	return structure{rtype{t}, rAddr{p}}
+}
+
+func ext۰reflect۰Indirect(fr *frame, args []value) value {
+	// Signature: func Indirect(v Value) Value
+	t := rV2T(args[0]).t
+	pt, ok := t.Underlying().(*types.Pointer)
+	if !ok {
+		return args[0]
+	}
+	p, _ := rV2V(args[0]).(*value)
+	if p == nil {
+		return structure{rtype{nil}, nil}
+	}
+	return makeReflectValueAddr(pt.Elem(), p)
+}
+
+func ext۰reflect۰Value۰FieldByName(fr *frame, args []value) value {
+	// Signature: func (v Value) FieldByName(name string) Value
+	t := rV2T(args[0]).t
+	st, ok := t.Underlying().(*types.Struct)
+	if !ok {
+		panic(fmt.Sprintf("reflect.(Value).FieldByName on %s", t))
+	}
+	name := args[1].(string)
+	for i := 0; i < st.NumFields(); i++ {
+		if st.Field(i).Name() == name {
+			if a, ok := args[0].(structure)[1].(rAddr); ok {
+				sv := (*a.p).(structure)
+				return makeReflectValueAddr(st.Field(i).Type(), &sv[i])
+			}
+			return makeReflectValue(st.Field(i).Type(), rV2V(args[0]).(structure)[i])
+		}
+	}
+	return structure{rtype{nil}, nil}
+}
+
+func ext۰reflect۰Value۰Set2(fr *frame, args []value) value {
+	// Signature: func (v Value) Set(x Value)
+	a, ok := args[0].(structure)[1].(rAddr)
+	if !ok {
+		panic("reflect.(Value).Set on unaddressable value")
+	}
+	t := rV2T(args[0]).t
+	xv := rV2V(args[1])
+	if _, isIface := t.Underlying().(*types.Interface); isIface {
+		if _, already := xv.(iface); !already {
+			xv = iface{rV2T(args[1]).t, xv}
+		}
+	}
+	*a.p = xv
+	return nil
 }
 
 // makeReflectType boxes up an rtype in a reflect.Type interface.
@@ -178,6 +241,9 @@ func ext۰reflect۰Zero(fr *frame, args []value) value {
 }
 
 func reflectKind(t types.Type) reflect.Kind {
+	if t == nil {
+		return reflect.Invalid
+	}
 	switch t := t.(type) {
 	case *types.Named, *types.Alias:
 		return reflectKind(t.Underlying())
@@ -378,7 +444,7 @@ func ext۰reflect۰Value۰Index(fr *frame, args []value) value {
 	case array:
 		return makeReflectValue(t.(*types.Array).Elem(), v[i])
 	case []value:
-		return makeReflectValue(t.(*types.Slice).Elem(), v[i])
+		return makeReflectValueAddr(t.(*types.Slice).Elem(), &v[i])
 	default:
 		panic(fmt.Sprintf("reflect.(Value).Index(%T)", v))
 	}
@@ -497,6 +563,9 @@ func ext۰reflect۰Value۰Set(fr *frame, args []value) value {
 func ext۰reflect۰valueInterface(fr *frame, args []value) value {
 	// Signature: func (v reflect.Value, safe bool) interface{}
 	v := args[0].(structure)
+	if it, ok := rV2V(v).(iface); ok {
+		return it // an interface-typed element already carries its dynamic type
+	}
 	return iface{rV2T(v).t, rV2V(v)}
 }
 
@@ -516,7 +585,14 @@ func newMethod(pkg *ssa.Package, recvType types.Type, name string) *ssa.Function
 	return fn
 }
 
+var (
+	reflectPatched = map[*ssa.Program]bool{}
+	reflectMu      sync.Mutex
+)
+
 func initReflect(i *interpreter) {
+	reflectMu.Lock()
+	defer reflectMu.Unlock()
 	i.reflectPackage = &ssa.Package{
 		Prog:    i.prog,
 		Pkg:     reflectTypesPackage,
@@ -537,7 +613,8 @@ func initReflect(i *interpreter) {
 	// One approach would be not to even load its source code, but
 	// provide fake source files.  This would guarantee that no bad
 	// information leaks into other packages.
-	if r := i.prog.ImportedPackage("reflect"); r != nil {
+	if r := i.prog.ImportedPackage("reflect"); r != nil && !reflectPatched[i.prog] {
+		reflectPatched[i.prog] = true
 		rV := r.Pkg.Scope().Lookup("Value").Type().(*types.Named)
 
 		// delete bodies of the old methods
